@@ -443,6 +443,58 @@ mod scaled {
                 meta: json!({"len": len, "arch_len": arch.len(), "compwire_len": compwire.len(), "header": hl}),
             });
         }
+        // sequential reads across many block boundaries of incompressible data (stored brotli
+        // blocks end in a lone empty last meta-block; where it falls relative to the encryption
+        // chunks below varies from stream to stream): oracle only
+        let nseq = if tier == "thorough" { 3000 } else { 400 };
+        for i in 0..nseq {
+            let len = (2 * bl + rng.below(3 * bl)) as usize;
+            let plain = if i % 4 == 3 { gen_plain(rng, 1, len) } else { rng.bytes(len) };
+            let piece = *rng.pick(&[0usize, 7, 100, 256, 300]);
+            let level = *rng.pick(&[0u32, 1, 5]);
+            let mut w = Box::new(CompressionLayerWriter::new(
+                Box::new(EncryptionLayerWriter::new(Box::new(RawLayerWriter::new(Vec::new())), &EncryptionConfig::verif_new(KEY, NONCE)).unwrap()),
+                &CompressionConfig::verif_new(level),
+            ));
+            write_pieces(&mut w, &plain, piece);
+            w.finalize().unwrap();
+            let arch = w.into_raw();
+            let bufsz = *rng.pick(&[1usize, 64, 257, 100_000]);
+            let res = crate::util::catch(|| -> Result<Vec<u8>, String> {
+                let mut raw = RawLayerReader::new(Cursor::new(arch.clone()));
+                raw.reset_position().map_err(|e| e.to_string())?;
+                let enc = EncryptionLayerReader::new(Box::new(raw), &EncryptionReaderConfig::verif_new(KEY, NONCE, false)).map_err(|e| format!("{e:?}"))?;
+                let mut r = CompressionLayerReader::new(Box::new(enc)).map_err(|e| format!("{e:?}"))?;
+                r.initialize().map_err(|e| format!("{e:?}"))?;
+                let mut got = Vec::new();
+                let mut buf = vec![0u8; bufsz];
+                loop {
+                    let n = r.read(&mut buf).map_err(|e| format!("read at {}: {e}", got.len()))?;
+                    if n == 0 {
+                        break;
+                    }
+                    got.extend_from_slice(&buf[..n]);
+                }
+                Ok(got)
+            });
+            let msg = match res {
+                Err(p) => Some(format!("sequential read of compression over encryption panicked: {p}")),
+                Ok(Err(e)) => Some(format!("sequential read of compression over encryption ({len} bytes, buffer {bufsz}): {e}")),
+                Ok(Ok(g)) if g != plain => Some(format!("sequential read of compression over encryption returns {} bytes, {} written, or bytes differ", g.len(), plain.len())),
+                _ => None,
+            };
+            out.case(&Case {
+                id: format!("c11-stack-seq-{i}"),
+                model_fn: "",
+                args: vec![],
+                imp: json!([]),
+                oracle_ok: msg.is_none(),
+                oracle_msg: msg.unwrap_or_default(),
+                class: format!("stack-seq level={level} buf={}", bufsz.min(1000)),
+                nontrivial: true,
+                meta: json!({"len": len, "level": level, "buf": bufsz, "piece": piece, "arch_len": arch.len()}),
+            });
+        }
     }
 
     /// The writer's block roll-over: single `write` calls of chosen sizes (0 = empty buffer),
